@@ -219,13 +219,15 @@ func RecoverTopicToTimestamp(ctx context.Context, s3 S3Client, cfg TopicRecovery
 
 			targetSegmentKey := segmentObjectKey(cfg.TargetNamespace, cfg.TargetTopic, partition, plan.baseOffset)
 			targetIndexKey := segmentIndexKey(cfg.TargetNamespace, cfg.TargetTopic, partition, plan.baseOffset)
-			if err := s3.UploadSegment(ctx, targetSegmentKey, plan.segmentBytes); err != nil {
-				return nil, err
-			}
+			// Register the objects for clean-up before uploading: an upload can
+			// report an error although the object was written.
 			copiedObjects = append(copiedObjects, copiedObject{
 				segmentKey: targetSegmentKey,
 				indexKey:   targetIndexKey,
 			})
+			if err := s3.UploadSegment(ctx, targetSegmentKey, plan.segmentBytes); err != nil {
+				return nil, err
+			}
 			if err := s3.UploadIndex(ctx, targetIndexKey, plan.indexBytes); err != nil {
 				return nil, err
 			}
